@@ -595,8 +595,46 @@ fn validate_iter() {
     one!(U0); one!(U1); one!(U2); one!(U3);
 }
 
+/// every `&mut`-to-`&mut` view of the API, written through element by element (run under Miri with Tree Borrows: a view whose pointer was
+/// derived through a shared borrow is reported there as undefined behaviour; natively the writes simply land)
+fn mutprov() {
+    use core::borrow::BorrowMut;
+    use generic_array::sequence::{Flatten, Split, Unflatten};
+    macro_rules! fill { ($s:expr, $v:expr) => { for x in $s.iter_mut() { *x = $v; } } }
+    let mut a: GenericArray<u32, U4> = GenericArray::generate(|i| i as u32);
+    fill!(a.as_mut_slice(), 1); assert!(a.iter().all(|x| *x == 1));
+    { let s: &mut [u32] = &mut *a; fill!(s, 2); } assert!(a.iter().all(|x| *x == 2));
+    { let s: &mut [u32] = a.as_mut(); fill!(s, 3); } assert!(a.iter().all(|x| *x == 3));
+    { let s: &mut [u32] = a.borrow_mut(); fill!(s, 4); } assert!(a.iter().all(|x| *x == 4));
+    { let s: &mut [u32; 4] = a.as_mut(); fill!(s, 5); } assert!(a.iter().all(|x| *x == 5));
+    for x in &mut a { *x = 6; } assert!(a.iter().all(|x| *x == 6));
+    let mut n = [0u32; 4];
+    { let g: &mut GenericArray<u32, U4> = (&mut n).into(); fill!(g, 7); } assert!(n.iter().all(|x| *x == 7));
+    { let g: &mut GenericArray<u32, U4> = GenericArray::from_mut_slice(&mut n[..]); fill!(g, 8); } assert!(n.iter().all(|x| *x == 8));
+    { let g: &mut GenericArray<u32, U4> = GenericArray::try_from_mut_slice(&mut n[..]).unwrap(); fill!(g, 9); } assert!(n.iter().all(|x| *x == 9));
+    { let g: &mut GenericArray<u32, U4> = <&mut GenericArray<u32, U4>>::try_from(&mut n[..]).unwrap(); fill!(g, 10); } assert!(n.iter().all(|x| *x == 10));
+    let mut v = [0u32; 7];
+    { let (c, r) = GenericArray::<u32, U3>::chunks_from_slice_mut(&mut v); for g in c.iter_mut() { fill!(g, 11); } fill!(r, 12); }
+    assert!(v[..6].iter().all(|x| *x == 11) && v[6] == 12);
+    let mut cs: [GenericArray<u32, U2>; 3] = [GenericArray::generate(|_| 0), GenericArray::generate(|_| 0), GenericArray::generate(|_| 0)];
+    { let s = GenericArray::slice_from_chunks_mut(&mut cs); fill!(s, 13); } assert!(cs.iter().all(|g| g.iter().all(|x| *x == 13)));
+    { let s: &mut [[u32; 2]] = GenericArray::<u32, U2>::into_chunks_mut(&mut cs); for c in s.iter_mut() { fill!(c, 14); } } assert!(cs.iter().all(|g| g.iter().all(|x| *x == 14)));
+    let mut ns = [[0u32; 2]; 3];
+    { let s: &mut [GenericArray<u32, U2>] = GenericArray::<u32, U2>::from_chunks_mut(&mut ns); for c in s.iter_mut() { fill!(c, 15); } } assert!(ns.iter().all(|g| g.iter().all(|x| *x == 15)));
+    let mut nested: GenericArray<GenericArray<u32, U2>, U3> = GenericArray::generate(|_| GenericArray::generate(|_| 0));
+    { let f: &mut GenericArray<u32, U6> = (&mut nested).flatten(); fill!(f, 16); } assert!(nested.iter().all(|g| g.iter().all(|x| *x == 16)));
+    let mut flat: GenericArray<u32, U6> = GenericArray::generate(|_| 0);
+    { let u: &mut GenericArray<GenericArray<u32, U2>, U3> = (&mut flat).unflatten(); for g in u.iter_mut() { fill!(g, 17); } } assert!(flat.iter().all(|x| *x == 17));
+    { let (h, t): (&mut GenericArray<u32, U2>, &mut GenericArray<u32, U4>) = Split::<u32, U2>::split(&mut flat); fill!(h, 18); fill!(t, 19); }
+    assert!(flat[..2].iter().all(|x| *x == 18) && flat[2..].iter().all(|x| *x == 19));
+    { let (h, t): (&mut GenericArray<u32, U6>, &mut GenericArray<u32, U0>) = Split::<u32, U6>::split(&mut flat); fill!(h, 20); assert!(t.is_empty()); }
+    assert!(flat.iter().all(|x| *x == 20));
+    println!("mutprov: every mutable view accepted the writes");
+}
+
 fn main() {
     let args: Vec<String> = std::env::args().collect();
+    if args[1] == "mutprov" { mutprov(); return; }
     if args[1] == "validate.iter" { validate_iter(); return; }
     if args[1].ends_with(".oob") {
         match oob_sweep(&args[1]) {
